@@ -263,6 +263,27 @@ def entries(pym, seed, thorough=False, extra=()):
                     D.data = r.standard_normal(D.data.shape)
                 return [D, r.standard_normal(n)]
             add('LinSolve', dict(n=n, kind='sparse ' + label), lambda si, so: pym.LinSolve(si, so), [S, b1], dirs=dirs, linear=[[1]])
+        # exact boundary data: solutions / seeds that are ISOTROPIC complex vectors (u.u == 0 without conjugation although
+        # u != 0, e.g. [1, 1j, 0, 0]) and vectors with exactly zero entries / zero columns -- tests on "is this vector zero"
+        # made with an unconjugated product, or dropped dyads, show here (dyadic sensitivities of sparse complex systems)
+        niso = 4
+        # entries are powers of two (times 1 or i) and the matrix is upper bidiagonal: the solve reproduces the chosen
+        # solution EXACTLY in floating point, so that u.u is exactly 0
+        Aiso = sps.csc_matrix(np.diag([2.0 + 0j, 4j, 1.0, 8.0]) + np.diag([0.5 + 0j] * (niso - 1), 1))
+        for label, usol in (('isotropic solution', np.array([1.0, 1j, 0.0, 0.0])), ('isotropic solution 2', np.array([1 + 1j, 1 - 1j, 0.0, 0.0])),
+                            ('solution with zeros', np.array([0.0, 2.0 - 1j, 0.0, 0.5j]))):
+            assert np.array_equal(np.linalg.solve(Aiso.toarray(), Aiso @ usol), usol)   # exactness of the construction
+            bis = Aiso @ usol
+
+            def isodirs(r, Aiso=Aiso):
+                D = Aiso.copy()
+                D.data = r.standard_normal(D.data.shape) + 1j * r.standard_normal(D.data.shape)
+                return [D, r.standard_normal(niso) + 1j * r.standard_normal(niso)]
+            add('LinSolve', dict(n=niso, kind='sparse complex, ' + label), lambda si, so: pym.LinSolve(si, so), [Aiso, bis],
+                dirs=isodirs, linear=[[1]])
+            add('LinSolve', dict(n=niso, kind='dense complex, ' + label), lambda si, so: pym.LinSolve(si, so), [Aiso.toarray(), bis],
+                dirs=lambda r: [r.standard_normal((niso, niso)) + 1j * r.standard_normal((niso, niso)),
+                                r.standard_normal(niso) + 1j * r.standard_normal(niso)], linear=[[1]])
         add('Inverse', dict(n=n), lambda si, so: pym.Inverse(si, so), [Agen])
         add('Inverse', dict(n=n, cplx=True), lambda si, so: pym.Inverse(si, so), [Agen + 1j * rng.standard_normal((n, n)) * 0.3])
         # SystemOfEquations / StaticCondensation on symmetric sparse matrices (their documented domain)
